@@ -105,6 +105,11 @@ func c03One(c *core.Ctx, cs srcCase) {
 			c.Report("a lone CR between tokens is reported as an unexpected character", mkWhat("%q", cs.Src), cs)
 			return
 		}
+		if semanticOnly(&res) {
+			// the grammar accepts the program and an action reports what PHP reports at compile time
+			c.Stat("grammar_valid_programs_with_semantic_errors(not judged)", 1)
+			return
+		}
 		c.Report("valid program rejected ("+fam+", "+cs.Why+"): "+errClass(res.Errs[0].Msg), mkWhat("%s in %q under %s", errList(res.Errs), cs.Src, cs.Ver), cs)
 		return
 	}
@@ -141,6 +146,20 @@ func c03One(c *core.Ctx, cs srcCase) {
 			c.Stat("trees_compared_with_model", 1)
 		}
 	}
+}
+
+// semanticOnly: every reported error comes from a grammar action (compile-time rules of PHP), none from yacc
+// or the scanner.
+func semanticOnly(res *drive.Result) bool {
+	if res.NErr() == 0 {
+		return false
+	}
+	for _, e := range res.Errs {
+		if e == nil || strings.HasPrefix(e.Msg, "syntax error") || strings.HasPrefix(e.Msg, "WARNING") {
+			return false
+		}
+	}
+	return true
 }
 
 func kindSkeleton(root ast.Vertex) string {
@@ -347,6 +366,17 @@ func c03Run(c *core.Ctx) {
 				}
 			}
 		}
+	}
+	for _, fam := range []string{"php7", "php5"} {
+		f := corpus.MustFam(fam)
+		wideItems(f, true, func(it *corpus.Item, src, why string) {
+			if c.Next() {
+				cs := mkCase(src, f.V, "sentence accepted by the reference LR driver")
+				cs.Aux = "valid"
+				c.P.Traces++
+				c03One(c, cs)
+			}
+		})
 	}
 	// B. operators
 	maxOps := 3
